@@ -5,18 +5,19 @@
 set -e
 OUT="$1"; mkdir -p "$OUT"
 REPO=${VERIF_REPO:-/repo}
+VROOT=$(cd "$(dirname "$0")/.." && pwd)
 export GOFLAGS=-mod=mod GOPROXY=off GOSUMDB=off GOTOOLCHAIN=local
 cp "$REPO/go.mod" "$OUT/go.mod"; cp "$REPO/go.sum" "$OUT/go.sum"
-python3 - "$OUT" "$REPO" <<'PY'
+python3 - "$OUT" "$REPO" "$VROOT" <<'PY'
 import json,os,sys,glob
-out,repo=sys.argv[1],sys.argv[2]
+out,repo,vroot=sys.argv[1],sys.argv[2],sys.argv[3]
 ov={}
-for f in glob.glob('/verif/harness/raft/*.go'): ov[os.path.join(repo,os.path.basename(f))]=f
-for f in glob.glob('/verif/harness/log/*.go'): ov[os.path.join(repo,'log',os.path.basename(f))]=f
+for f in glob.glob(os.path.join(vroot,'harness/raft/*.go')): ov[os.path.join(repo,os.path.basename(f))]=f
+for f in glob.glob(os.path.join(vroot,'harness/log/*.go')): ov[os.path.join(repo,'log',os.path.basename(f))]=f
 json.dump({"Replace":ov},open(os.path.join(out,'overlay.json'),'w'))
 PY
 cd "$REPO"
 go test -c -vet=off -tags verif -modfile "$OUT/go.mod" -overlay "$OUT/overlay.json" -o "$OUT/raft.test" . 
-if ls /verif/harness/log/*.go >/dev/null 2>&1; then
+if ls "$VROOT"/harness/log/*.go >/dev/null 2>&1; then
   go test -c -vet=off -tags verif -modfile "$OUT/go.mod" -overlay "$OUT/overlay.json" -o "$OUT/log.test" ./log
 fi
